@@ -1,9 +1,10 @@
 import Oas3Model.Driver.Util
 import Oas3Model.Driver.Naming
 import Oas3Model.Driver.Sse
+import Oas3Model.Driver.Resp
 open Lean Oas3.Driver
 
-def allOps : List (String × Handler) := Oas3.Driver.Naming.ops ++ Oas3.Driver.Sse.ops
+def allOps : List (String × Handler) := Oas3.Driver.Naming.ops ++ Oas3.Driver.Sse.ops ++ Oas3.Driver.Resp.ops
 
 def handleLine (line : String) : String :=
   match Json.parse line with
